@@ -86,7 +86,17 @@ class FixedHugr(ConfiguredBaseModel):
     hugr: Any
 
     def deserialize(self) -> ext.FixedHugr:
-        return ext.FixedHugr(extensions=self.extensions, hugr=self.hugr)
+        from hugr.hugr.base import Hugr
+
+        from .serial_hugr import SerialHugr
+
+        # The lowering is stored in its serialized form.
+        serial = self.hugr
+        if isinstance(serial, dict):
+            serial = SerialHugr.load_json(serial)
+        return ext.FixedHugr(
+            extensions=self.extensions, hugr=Hugr._from_serial(serial)
+        )
 
 
 class OpDef(ConfiguredBaseModel, populate_by_name=True):
